@@ -153,20 +153,22 @@ var theWorld *World
 var hookOnce sync.Once
 
 type World struct {
-	t      *testing.T
-	plan   *Plan
-	st     *core.Stream
-	sched  *core.Sched
-	clock  *core.Clock
-	srv    *fakepg.Server
-	srcs   map[string]*srcState
-	pairs  []*pairState
-	conf   config.Root
-	gen    int
-	step   int
-	healed bool
-	dead   atomic.Bool // teardown: transport fails instantly
-	setup  bool // setup phase: PG gate auto-executes
+	t        *testing.T
+	plan     *Plan
+	st       *core.Stream
+	sched    *core.Sched
+	clock    *core.Clock
+	srv      *fakepg.Server
+	srcs     map[string]*srcState
+	pairs    []*pairState
+	conf     config.Root
+	gen      int
+	step     int
+	healed   bool
+	dead     atomic.Bool // teardown: transport fails instantly
+	free     bool        // free-running mode: nothing parks, hooks off (C18)
+	noActors bool
+	setup    bool // setup phase: PG gate auto-executes
 
 	mu         sync.Mutex
 	commits    []*fakepg.CommitInfo
@@ -250,6 +252,9 @@ func (simTransport) RoundTrip(req *http.Request) (*http.Response, error) {
 	w := theWorld
 	if w == nil {
 		return nil, errors.New("no simulation world")
+	}
+	if w.free {
+		return w.freeRoundTrip(req, body)
 	}
 	host := req.URL.Hostname()
 	if w.dead.Load() || !w.liveHost(host) {
@@ -335,7 +340,10 @@ func (w *World) newPool(owner string, max int32) (*pgxpool.Pool, error) {
 }
 
 func (w *World) gate(ev *fakepg.Event) (fakepg.Verdict, string) {
-	if w.setup || strings.HasPrefix(ev.Owner, "setup") {
+	if w.setup || w.free || strings.HasPrefix(ev.Owner, "setup") {
+		if w.free && w.dead.Load() {
+			return fakepg.DropBefore, ""
+		}
 		return fakepg.Exec, ""
 	}
 	if w.dead.Load() {
@@ -393,18 +401,18 @@ func installHooks() {
 	hookOnce.Do(func() {
 		http.DefaultTransport = simTransport{}
 		verifhook.OnAcquire = func(lock any, kind string, a, b uint64) {
-			if w := theWorld; w != nil {
+			if w := theWorld; w != nil && !w.free {
 				w.sched.Acquire(lock, kind, a, b, "")
 			}
 		}
 		verifhook.OnRelease = func(lock any) {
-			if w := theWorld; w != nil {
+			if w := theWorld; w != nil && !w.free {
 				w.sched.ReleaseLock(lock)
 			}
 		}
 		verifhook.OnEvent = func(name string, kv ...any) {
 			w := theWorld
-			if w == nil {
+			if w == nil || w.free {
 				return
 			}
 			switch name {
@@ -416,7 +424,8 @@ func installHooks() {
 				}
 			}
 		}
-		slog.SetDefault(slog.New(slog.NewTextHandler(io.Discard, nil)))
+		// no handler lock: a mutexed log handler would order the tasks at every log line (and hide races)
+		slog.SetDefault(slog.New(slog.DiscardHandler))
 	})
 }
 
@@ -493,6 +502,12 @@ func (w *World) build() error {
 	return nil
 }
 
+func (w *World) startGenerationTasksOnly() error {
+	w.noActors = true
+	defer func() { w.noActors = false }()
+	return w.startGeneration()
+}
+
 // startGeneration creates clients, pools, tasks and actors for w.gen.
 func (w *World) startGeneration() error {
 	p := w.plan
@@ -507,6 +522,39 @@ func (w *World) startGeneration() error {
 		ss.client = jrpc2.New(w.urlsFor(name)...).WithMaxReads(nIG).WithPollDuration(poll)
 	}
 	var shared *pgxpool.Pool
+	// With one shared pool (as in the real binary) the tasks are built by the
+	// repository's own loadTasks from the configuration, so the wiring of
+	// names, ranges, settings and clients per (source, integration) is real
+	// code too; otherwise each task is built here with a pool of its own.
+	loaded := map[string]*shovel.Task{}
+	if p.SharedPool && !p.Checks["no_loadtasks"] {
+		var err error
+		shared, err = w.newPool(fmt.Sprintf("shared#g%d", w.gen), int32(2*len(w.pairs)+2))
+		if err != nil {
+			return err
+		}
+		conf := w.conf
+		conf.Sources = append([]config.Source(nil), w.conf.Sources...)
+		for i := range conf.Sources {
+			ss := w.srcs[conf.Sources[i].Name]
+			if ss == nil {
+				continue
+			}
+			conf.Sources[i].URLs = w.urlsFor(ss.plan.Name)
+			conf.Sources[i].BatchSize, conf.Sources[i].Concurrency = ss.batch, ss.conc
+		}
+		tasks, err := shovel.LoadTasks(context.Background(), shared, conf)
+		if err != nil {
+			return fmt.Errorf("LoadTasks: %w", err)
+		}
+		for _, t := range tasks {
+			loaded[t.VerifSrcName()+"/"+t.VerifIGName()] = t
+		}
+		if len(loaded) != len(w.pairs) {
+			return fmt.Errorf("LoadTasks built %d tasks for %d pairs", len(loaded), len(w.pairs))
+		}
+		w.stat("generations_built_by_loadtasks", 1)
+	}
 	for _, ps := range w.pairs {
 		ps.owner = fmt.Sprintf("t:%s#g%d", ps.key, w.gen)
 		var pool *pgxpool.Pool
@@ -530,19 +578,25 @@ func (w *World) startGeneration() error {
 		ctx = wctx.WithChainID(ctx, ps.src.plan.ChainID)
 		ctx = wctx.WithSrcName(ctx, ps.src.plan.Name)
 		ctx = wctx.WithIGName(ctx, ps.decl.Name)
-		task, err := shovel.NewTask(
-			shovel.WithContext(ctx),
-			shovel.WithPG(pool),
-			shovel.WithRange(ps.ref.Start, ps.ref.Stop),
-			shovel.WithPollDuration(time.Duration(ps.src.plan.PollMs)*time.Millisecond),
-			shovel.WithConcurrency(ps.src.conc, ps.src.batch),
-			shovel.WithSrcName(ps.src.plan.Name),
-			shovel.WithChainID(ps.src.plan.ChainID),
-			shovel.WithSource(ps.src.client),
-			shovel.WithIntegration(ps.ig),
-		)
-		if err != nil {
-			return fmt.Errorf("NewTask %s: %w", ps.key, err)
+		task := loaded[ps.key]
+		if len(loaded) > 0 && task == nil {
+			return fmt.Errorf("LoadTasks built no task for pair %s", ps.key)
+		}
+		if task == nil {
+			task, err = shovel.NewTask(
+				shovel.WithContext(ctx),
+				shovel.WithPG(pool),
+				shovel.WithRange(ps.ref.Start, ps.ref.Stop),
+				shovel.WithPollDuration(time.Duration(ps.src.plan.PollMs)*time.Millisecond),
+				shovel.WithConcurrency(ps.src.conc, ps.src.batch),
+				shovel.WithSrcName(ps.src.plan.Name),
+				shovel.WithChainID(ps.src.plan.ChainID),
+				shovel.WithSource(ps.src.client),
+				shovel.WithIntegration(ps.ig),
+			)
+			if err != nil {
+				return fmt.Errorf("NewTask %s: %w", ps.key, err)
+			}
 		}
 		ps.task = task
 		ps.inCall = false
@@ -554,6 +608,9 @@ func (w *World) startGeneration() error {
 		}
 		if idle {
 			ps.idle = true
+			continue
+		}
+		if w.noActors {
 			continue
 		}
 		w.mu.Lock()
